@@ -16,6 +16,7 @@ pub fn property() -> Property {
            an out-of-order arrival, a duplicate, or a GAP/HEARTBEAT-declared hole below a received \
            sample. Distinct = distinct decoded histories.",
     assumptions: &[
+      "a HEARTBEAT whose count is not above the last one accepted from that writer is a duplicate and is ignored (RTPS 2.5, 8.3.8.6.5 / 8.4.15.7); the generator also sends such heartbeats with other contents than the original, which no conforming writer does",
       "reader History KeepAll and roomy resource limits (the statement's proviso)",
       "receive timestamps are unique (virtual clock: strictly increasing Timestamp::now())",
       "the same (writer, sequence number) always carries the same payload and source timestamp, as RTPS requires",
